@@ -4,11 +4,10 @@ CONSTANTS
   NumTokens = 2
   defaultInitValue = 0
   Hist <- HistB
-  MaxTick = 3
+  MaxTick = 2
 CONSTRAINT Bound
 INVARIANT NoRaise
 INVARIANT ExactlyOnce
 INVARIANT EpisodeIsolation
 INVARIANT MessagesOrdered
-INVARIANT RecordsScheduleIndependent
 ACTION_CONSTRAINT SegmentAtomic
